@@ -82,6 +82,13 @@ def main(argv=None):
     obs = mod.obligations(ctx)
     if a.only: obs = [o for o in obs if re.search(a.only, o.id)]
     results = run_obligations(obs, ctx, a.jobs)
+    # an inconclusive answer under full parallel load (solver budget exhausted) gets one more attempt with the machine to itself
+    retry = [i for i, o in enumerate(obs) if any(r['id'] == o.id and r['status'] == INCONC for r in results)]
+    if retry and len(retry) <= 8:
+        again = {obs[i].id: _work(i) for i in retry}
+        results = [again.get(r['id'], r) if r['status'] == INCONC else r for r in results]
+        for r in results:
+            if r['id'] in again: r['retried'] = True
     results.sort(key=lambda r: r['id'])
     known, fixed = load_known()
     nviol = 0; nknown = 0; ninc = 0; lines = []
